@@ -2,6 +2,7 @@
 import IpcHub.Drv.Util
 import IpcHub.Model.MediaInst
 import IpcHub.Model.FlvCacheM
+import IpcHub.Spec.MediaKinds
 namespace IpcHub.Drv.MediaScript
 open IpcHub.Media IpcHub.Drv
 
@@ -113,11 +114,33 @@ def runFlv (gop : Bool) (toks : List String) : String :=
       let body := if ex.isEmpty then "-" else ",".intercalate (ex.map (fun t => s!"{t.uid}@{t.ts}"))
       s!"c{n}={body}"))
 
+/-- `align <hevc> P:<ch>:<ts>:<hex>… C:<joinedAt>:<detachedAt>:<uid.uid…>…` — the specification's verdict on what
+    each consumer was delivered (C04: after a drop the next packet starts a key frame):
+    `ok` or `bad:<consumer index>:<uid of the offending packet>` -/
+def runAlign (hevc : Bool) (toks : List String) : String :=
+  let ptoks := toks.filter (·.startsWith "P:")
+  let ctoks := toks.filter (·.startsWith "C:")
+  let ps : List Pkt := (List.range ptoks.length).zip ptoks |>.filterMap (fun (i, t) =>
+    match t.splitOn ":" with
+    | ["P", ch, ts, hex] => (hexToBytes hex).map (fun b => ({ uid := i + 1, ch := natOf ch, payload := b, ts := natOf ts } : Pkt))
+    | _ => none)
+  if ps.length ≠ ptoks.length then "bad-op" else
+  let verdicts := (List.range ctoks.length).zip ctoks |>.filterMap (fun (i, t) =>
+    match t.splitOn ":" with
+    | ["C", j, e, d] =>
+      let dl := ((d.splitOn ".").filter (· ≠ "")).map natOf
+      (dropAligned genConsts hevc ps (natOf j) (natOf e) dl).map (fun u => s!"bad:{i}:{u}")
+    | _ => some "bad-op")
+  match verdicts with
+  | [] => "ok"
+  | v :: _ => v
+
 /-- `script <hevc> <gop> <maxq (0 = the source's limit)> <op> <op> ...` | `trace <hevc> <gop> <packets> <delivered lists>` -/
 def handle : List String → String
   | "script" :: hevc :: gop :: maxq :: ops => runScript (hevc = "1") (gop = "1") (natOf maxq) ops
   | ["trace", hevc, gop, pub, cons] => runTrace (hevc = "1") (gop = "1") pub cons
   | "flv" :: gop :: ops => runFlv (gop = "1") ops
+  | "align" :: hevc :: toks => runAlign (hevc = "1") toks
   | _ => "bad-op"
 
 end IpcHub.Drv.MediaScript
